@@ -438,20 +438,64 @@ fn raw_case(case: &Case, rep: &mut CaseReport) -> Result<(), Failure> {
         Scenario::RawRollback => sm::SOp::Rollback { g: 0, name: 0 },
         _ => sm::SOp::ReplaceRelays { g: 0, mask: 0b0110 },
     };
+    // optionally a call that the storage refuses comes first, on the same instance: a refused
+    // call must leave nothing behind that affects the next one or what survives the process
+    let refused: Option<sm::SOp> = match case.commit_kind % 4 {
+        1 => Some(sm::SOp::Rollback { g: 0, name: 3 }),
+        2 => Some(sm::SOp::Rollback { g: 1, name: 0 }),
+        3 => Some(sm::SOp::ReplaceRelays { g: 3, mask: 0b0011 }),
+        _ => None,
+    };
+    let run_refused = |st: &mdk_sqlite_storage::MdkSqliteStorage| -> Result<(), Failure> {
+        if let Some(r) = &refused {
+            let before = sm::dump_real(st);
+            let res = sm::apply_real(st, r, 0);
+            if res != serde_json::json!("ERR") {
+                return Err(Failure::new("setup-failed", format!("{r:?} was expected to be refused, got {res}")));
+            }
+            if sm::dump_real(st) != before {
+                return Err(Failure::new("refused-storage-call-had-an-effect", format!("{r:?} was refused, yet the store changed")));
+            }
+        }
+        Ok(())
+    };
+    if refused.is_some() {
+        rep.classes.push(format!("{:?}-after-a-refused-call", case.scenario));
+    }
     let work = dir.0.join("work.db");
     // pre and post dumps
     copy_db(&base, &work)?;
     let (pre, post, k_total) = {
         let st = mdk_sqlite_storage::MdkSqliteStorage::new_unencrypted(&work).map_err(|e| Failure::new("setup-failed", e.to_string()))?;
+        run_refused(&st)?;
         let pre = sm::dump_real(&st);
         install_counter();
         let r = sm::apply_real(&st, &op, 0);
         let k = TICKS.with(|t| t.get());
         uninstall();
         if r == serde_json::json!("ERR") {
+            if let Some(rf) = &refused {
+                return Err(Failure::new(
+                    "refused-storage-call-poisoned-the-connection",
+                    format!("{op:?} succeeds on a fresh instance, but fails on an instance that has just refused {rf:?}"),
+                ));
+            }
             return Err(Failure::new("setup-failed", format!("raw op {op:?} failed uninterrupted")));
         }
-        (pre, sm::dump_real(&st), k)
+        let post = sm::dump_real(&st);
+        // a completed call is durable: the process ends here, the file is reopened
+        drop(st);
+        let st2 = mdk_sqlite_storage::MdkSqliteStorage::new_unencrypted(&work)
+            .map_err(|e| Failure::new("database-does-not-reopen-after-crash", format!("after the completed {op:?}: {e}")))?;
+        let again = sm::dump_real(&st2);
+        if again != post {
+            let (key, got, want) = sm::first_difference(&again, &post).unwrap();
+            return Err(Failure::new(
+                "completed-call-is-not-durable",
+                format!("{op:?}{} returned Ok; after ending the process and reopening the file `{key}` = {got}, the call had left it as {want}", refused.as_ref().map(|r| format!(" (right after the refused {r:?})")).unwrap_or_default()),
+            ));
+        }
+        (pre, post, k)
     };
     if pre == post {
         return Err(Failure::new("setup-failed", "raw op changed nothing".to_string()));
@@ -460,6 +504,7 @@ fn raw_case(case: &Case, rep: &mut CaseReport) -> Result<(), Failure> {
         copy_db(&base, &work)?;
         {
             let st = mdk_sqlite_storage::MdkSqliteStorage::new_unencrypted(&work).map_err(|e| Failure::new("setup-failed", e.to_string()))?;
+            run_refused(&st)?;
             install_counter();
             ARMED.with(|a| a.set(Some(k)));
             let r = std::panic::catch_unwind(std::panic::AssertUnwindSafe(|| sm::apply_real(&st, &op, 0)));
